@@ -20,3 +20,12 @@ def replay_c03_aba(tag='replay-c03'):
     build.run(['clang++-14', '-std=c++11', '-g', '-fsanitize=address', '-DSTEAL=33704', '-I', os.path.join(build.REPO, 'src'), src, lib, '-o', exe, '-Wl,-rpath,' + d, '-lpthread'])
     r = subprocess.run([exe], stdout=subprocess.PIPE, stderr=subprocess.STDOUT, text=True, env=dict(os.environ, ASAN_OPTIONS='detect_leaks=0'))
     return ('heap-use-after-free' in r.stdout), r.stdout
+
+def replay_c14_global_write(tag='replay-c14'):
+    """two threads creating hardware-AES VMs concurrently, under ThreadSanitizer"""
+    lib = build.native_lib(tag, sanitize='thread', cc='clang')
+    d = build.workdir(tag); exe = os.path.join(d, 'c14_race')
+    src = os.path.join(build.VERIF, 'replay', 'c14_aesdummy_race.cpp')
+    build.run(['clang++-14', '-std=c++11', '-g', '-fsanitize=thread', '-I', os.path.join(build.REPO, 'src'), src, lib, '-o', exe, '-Wl,-rpath,' + d, '-lpthread'])
+    r = subprocess.run([exe], stdout=subprocess.PIPE, stderr=subprocess.STDOUT, text=True, env=dict(os.environ, TSAN_OPTIONS='halt_on_error=0'))
+    return ('data race' in r.stdout), r.stdout
